@@ -326,6 +326,8 @@ fn c11(quick: bool) -> PropRun {
         ("alloc-exhausted", (0..5).map(|i| send(0, 0, 0, if i % 2 == 0 { Reliable } else { Unreliable }, 2000 + i)).collect(), LwCfg { pwin: 8, fwin: 8, rx_alloc: [30_000, 3 * FRAG], ..LwCfg::small() }),
         ("default-windows-stream", (0..16).map(|i| send(i / 2, i % 2, (i % 3) as u8, MODES[i % 4], 700 + 100 * i)).collect(), LwCfg { pwin: 4096, fwin: 4096, ..LwCfg::small() }),
         ("idle-before-fault", vec![send(0, 0, 0, Reliable, 20)], LwCfg { pwin: 4, fwin: 8, ..LwCfg::small() }),
+        // the peer streams small packets (10 per second) for the whole run: this side owes acknowledgements all the time
+        ("reverse-stream", (0..4).map(|i| send(i, 0, 0, Reliable, 1400)).chain((0..((probe_round + T_LIVE_ROUNDS - 1000) / 5)).map(|k| send(5 * k, 1, 1, Unreliable, 20))).collect(), LwCfg { pwin: 4096, fwin: 4096, ..LwCfg::small() }),
     ];
     for (name, mut ops, cfg) in fills {
         probes(&mut ops);
